@@ -21,7 +21,7 @@ def make_net(seed, g, tier="quick"):
     if profile == "corpus":
         name = g.C(CORPUS if tier == "quick" else CORPUS_THOROUGH)
         net = getattr(pn, name)()
-        net.load["scaling"] = g.rng.uniform(0.6, 1.3, len(net.load)) * g.C([1.0, 1.0, 1.3])
+        net.load["scaling"] = g.rng.uniform(0.6, 1.3, len(net.load)) * g.C([1.0, 1.0, 1.3, 1.8])
         for i in net.line.index:
             if g.B(0.04):
                 net.line.at[i, "in_service"] = False
